@@ -39,16 +39,17 @@ type height struct {
 
 // Run is the driver entry point.
 func Run(o *drv.Out) {
-	corpusOversize(o)
-	corpusFullBlock(o)
-	corpusNonCanonical(o)
-	corpusCheckpointHeight(o)
+	execdrv.Property = "C11"
+	execdrv.Guard(o, func() { corpusOversize(o) })
+	execdrv.Guard(o, func() { corpusFullBlock(o) })
+	execdrv.Guard(o, func() { corpusNonCanonical(o) })
+	execdrv.Guard(o, func() { corpusCheckpointHeight(o) })
 	nCases, nHeights := 5, 5
 	if o.Tier == "thorough" || o.Search {
 		nCases, nHeights = 14, 8
 	}
 	for ci := 0; ci < nCases; ci++ {
-		runCase(o, ci, nHeights)
+		execdrv.Guard(o, func() { runCase(o, ci, nHeights) })
 	}
 }
 
